@@ -114,6 +114,8 @@ inline cocls::async<void> pj_parked(pool_round &X, pool_job &j) {
 inline cocls::async<void> pj_current(pool_round &X, pool_job &j) {
     try {
         co_await cocls::thread_pool::current();
+        // a yield that really went through the queue continues on a worker; one that was cancelled at stop() must arrive as an exception
+        if (!is_current(*X.pool)) j.off_worker.fetch_add(1, std::memory_order_relaxed);
         j.ran.fetch_add(1, std::memory_order_relaxed);
     } catch (const cocls::await_canceled_exception &) { j.cancelled.fetch_add(1, std::memory_order_relaxed); }
     (void)X;
